@@ -4,6 +4,7 @@ package main
 // joins and loops cut at their heads.  DESIGN.md §3.2.
 
 import (
+	"os"
 	"fmt"
 	"go/constant"
 	"go/token"
@@ -531,6 +532,11 @@ func (fe *FnExec) mergeVal(vals []Val, pcs []Term, hint string) Val {
 		ts[i] = termOf(v)
 	}
 	fe.abstracted["merge-of-unlike-values"]++
+	if os.Getenv("GCV_DEBUG_MERGE") != "" {
+		for _, v := range vals {
+			fmt.Fprintf(os.Stderr, "merge-of-unlike-values %s: %T %v\n", hint, v, v)
+		}
+	}
 	return RefV{mergeT(ts, "Int")}
 }
 
